@@ -174,12 +174,15 @@ class ClientRun:
                 self.proto.connection_lost(e)
         self.loop.drain(jobs=True, timers=False, limit=200_000)
 
-    def run(self, chunks):
+    def run(self, chunks, pace=0.0):
+        """pace > 0: the peer lets that many (virtual) seconds pass before every chunk after the first"""
         t = self.loop.spawn(self.proto.download_blob(self.blob))
         self.loop.drain(jobs=True, timers=False, limit=200_000)
         request = self.transport.take()
         t0 = self.loop.time()
-        for c in chunks:
+        for i, c in enumerate(chunks):
+            if pace and i and not t.done():
+                self.loop.drain(jobs=True, timers=True, limit=400_000, stop=t.done, until=self.loop.time() + pace)
             self.feed(c)
         # the peer is silent from here on: let virtual time pass until the request ends
         self.loop.drain(jobs=True, timers=True, limit=400_000, stop=t.done, until=t0 + 100.0)
@@ -258,14 +261,22 @@ def client_leg(ctx, streams, recs):
                         cuts = sorted(rng.sample(range(1, max(2, len(whole))), k=min(3, max(1, len(whole) - 1)))) if len(whole) > 2 else []
                         chunks = [whole[a:b] for a, b in zip([0] + cuts, cuts + [len(whole)])]
                         mode = 'random-cuts'
+                    pace = 0.0
+                    if obj.get('honest') and rng.random() < 0.2:
+                        # an otherwise honest peer that drip-feeds: a piece every 0.9 peer timeouts, more than two timeouts in all
+                        whole = b''.join(pieces)
+                        nparts = min(len(whole), rng.choice([4, 5, 7]))
+                        size = -(-len(whole) // nparts)
+                        chunks = [whole[j:j + size] for j in range(0, len(whole), size)]
+                        mode, pace = 'drip', 0.9 * PEER_TIMEOUT
                     run = ClientRun(ctx, k, blob, known)
                     k += 1
                     try:
-                        rec = run.run([c for c in chunks if c])
+                        rec = run.run([c for c in chunks if c], pace)
                     finally:
                         run.close()
                     rec.update({'kind': 'client', 'stream': list(stream), 'n': n, 'known': known, 'comp': comp if mode == 'units' else [],
-                                'mode': mode, 'unit': unit, 'honest': is_honest(stream, n), 'timeout_ms': int(PEER_TIMEOUT * 1000), 'ev': []})
+                                'mode': mode, 'unit': unit, 'honest': is_honest(stream, n) and mode != 'drip', 'timeout_ms': int(PEER_TIMEOUT * 1000), 'ev': []})
                     recs.append(rec)
                     ctx.count(('client', n, stream, known, tuple(comp), mode, unit), nontrivial=len(stream) >= 2)
     ctx.leg('C-client', runs=k)
